@@ -234,6 +234,10 @@ def c12_nontrivial(inp, outp):
     t = toks(inp)
     if t[0] in ('new', 'new_view'):
         return True
+    if t[0] == 'c12pay':
+        # set_payload of a non-empty payload into a buffer with pre-existing non-zero content (a write at a wrong
+        # offset or over a header octet is visible there), or a refused call (the fitting boundary)
+        return outp.startswith('fault') or (t[2].strip('0') != '' and t[3] != '-')
     # accessor on a buffer with pre-existing non-zero content: where a wrong mask / shift becomes visible
     return t[-1].strip('0') != ''
 
@@ -248,7 +252,11 @@ PROPS['C12'] = dict(
              'boundary + 2000 random for u32 / address arguments); '
              'getters also on field contents planted into a random background (thorough: exhaustive for fields up to 12 bits wide; the 16-bit '
              'fields are read back on all 2^16 contents after the exhaustive set sweep); '
-             'new / new_view of all 19 packet types for every length 0..min+8. '
+             'new / new_view of all 19 packet types for every length 0..min+8; '
+             'set_payload of the 13 packet types that have one (c12pay lines): every IHL 0..15 (IPv4) / data offset 0..15 (TCP) planted into random, all-zero and all-0xFF buffers '
+             'of lengths around the RFC offset, IPv6 payload-length / extension-object length fields that cover, cut and miss the payload, x payload lengths around the fitting boundary; '
+             'for set_payload the oracle computes the RFC payload offset independently, requires the octets before it and behind the payload unchanged, the payload there, the read side '
+             '(payload() / payload_raw()) returning it, and a panic iff the payload does not fit. '
              'oracle: independent RFC (bit offset, width) table + bit-slice reader in the harness. '
              'non-trivial = accessor case on a buffer that is not all zeros, or a construction case; distinct = distinct input line',
         exhaustive={'quick': False, 'thorough': False},
